@@ -26,6 +26,16 @@ void generate_math_utility_builtins(StringBuilder *sb) {
     sb_append(sb, "    double: (double)((a) > (b) ? (a) : (b)), \\\n");
     sb_append(sb, "    default: (int64_t)((a) > (b) ? (a) : (b)))\n\n");
 
+    /* integer / and %: INT64_MIN / -1 and INT64_MIN % -1 overflow in C (SIGFPE on x86-64); wrap like + - * do */
+    sb_append(sb, "static inline int64_t nl_idiv(int64_t a, int64_t b) { return b == -1 ? (int64_t)(0ULL - (uint64_t)a) : a / b; }\n");
+    sb_append(sb, "static inline int64_t nl_imod(int64_t a, int64_t b) { return b == -1 ? 0 : a % b; }\n");
+    sb_append(sb, "#define nl_div(a, b) _Generic((a) + (b), \\\n");
+    sb_append(sb, "    double: (double)(a) / (double)(b), \\\n");
+    sb_append(sb, "    default: nl_idiv((int64_t)(a), (int64_t)(b)))\n");
+    sb_append(sb, "#define nl_mod(a, b) _Generic((a) + (b), \\\n");
+    sb_append(sb, "    double: fmod((double)(a), (double)(b)), \\\n");
+    sb_append(sb, "    default: nl_imod((int64_t)(a), (int64_t)(b)))\n\n");
+
     /* Math functions - wrappers around C standard library math.h */
     sb_append(sb, "/* Trigonometric functions */\n");
     sb_append(sb, "static double nl_sin(double x) { return sin(x); }\n");
